@@ -58,7 +58,10 @@ def read_rows(text):
     rows = []
     for f in rec.features:
         ps = sorted([int(p.start), int(p.end), p.strand] for p in f.location.parts)
-        rows.append(dict(type=f.type, parts=ps, q={k: list(v) for k, v in f.qualifiers.items()}))
+        # `listed`: the parts in the order the reader hands them out, which is the order in which a reader that trusts the
+        # file (Bio.SeqFeature.extract / translate) splices them: 5'->3' when the file follows the INSDC convention
+        listed = [[int(p.start), int(p.end), p.strand] for p in f.location.parts]
+        rows.append(dict(type=f.type, parts=ps, q={k: list(v) for k, v in f.qualifiers.items()}, listed=listed))
     return str(rec.seq), rec.name, rows
 
 
